@@ -44,7 +44,7 @@ pub struct Expect {
     pub other_session: Vec<String>,
 }
 
-const REJECTED: [&str; 11] = [
+const REJECTED: [&str; 13] = [
     "zz9",
     "i0 = = 5",
     "[1, 2",
@@ -57,6 +57,9 @@ const REJECTED: [&str; 11] = [
     "[1, 4] %mm.add [~, nope] %mm.add",
     "%mm.k [~, 0x00] %mm.add",
     "q = %mm2, q.nosuchfield",
+    // rejected for a reason the grammar "cannot" reach: a positional index no machine word holds
+    "qq0.99999999999999999999999",
+    "[1, 2] { =[a, b] => a.340282366920938463463374607431768211456 }",
 ];
 const MM: &str = "[add: #['int, 'int] { __integer_add__ }, k: 7, b: [0x0a, 0x0b] __binary_concat__]";
 /// widens an int to 'bin | 'int
